@@ -34,7 +34,7 @@ def gen_scenario(r, keys):
             w = r.choice(wallets + ["Wallet.*", "Wallet 1|Vault", ".*"])
             a = r.choice(["", "Acc.*", "Acc1", "Acc1|Acc2", "[vV]al.*", ".*1", "Deposit|X", "acc1"])
             ops = r.choice([["All"], ["Access account"], ["~Access account", "All"], ["None"], ["Sign", "Access account"], ["~Sign", "All"],
-                            ["Create account", "Access account"], ["Sign"]])
+                            ["Create account", "Access account"], ["Sign"], ["Lock wallet", "Unlock wallet", "Access account"], ["~Lock account", "All"]])
             pl.append((c, w + ("/" + a if a else ""), ops))
         # often a broad last entry, so that many listings are non-empty and creations are permitted (earlier entries
         # still decide first)
@@ -63,6 +63,9 @@ def gen_scenario(r, keys):
         c = r.weighted([("client1", 6), ("client2", 3), ("nobody", 1), ("", 1)])
         ps = paths()
         ops.append("list %s %s" % (hs(c), ",".join(hs(p) for p in ps) if ps else "-"))
+        if r.chance(0.2):
+            # other request types in between must not disturb what later listings show
+            ops.append("%s %s %s" % (r.choice(["lockwallet", "lockwallet", "unlockwallet"]), hx(r.choice(["client1", "client2"])), hx(r.choice(wallets + ["Nope"]))))
         if r.chance(0.25):
             w = r.choice(wallets)
             nm = r.choice(["New1", "Acc77", "Acc1", "Validator2", "acc9"])
